@@ -1,5 +1,6 @@
 import SpecVerif.Proofs.Lemmas.Yule
 import SpecVerif.Proofs.Lemmas.SchurCohn
+import SpecVerif.Proofs.Lemmas.LpcLsf
 import Mathlib.Algebra.Star.Rat
 import Mathlib.Analysis.Complex.Basic
 /-
@@ -18,8 +19,14 @@ import Mathlib.Analysis.Complex.Basic
   signal" is `∃ j, j < x.length ∧ nth x j ≠ 0`.  `mentry (corrmtx x p .autocorrelation) i j` is entry
   `(i,j)` of the `(N+p)×(p+1)` 'autocorrelation' data matrix, the zero-padded `x[i-j]`.
 
-  NOT proved here (outside the targets): that `lpc` (FFT-based autocorrelation) returns the same
-  coefficients.
+  The `lpc` clause ("the same coefficients are obtained, for real data, by `lpc`") is PROVED in
+  section 9 (`lpc_acf_eq`, `lpc_acf_real`, `lpc_eq_yule`): with `nfft ≥ 2m-1` the FFT route
+  `real(ifft(|fft(x, nfft)|²))/(m-1)` is the raw autocorrelation divided by `m-1` (Wiener–Khinchin +
+  inverse DFT, no wrap-around), i.e. `m/(m-1)` times the biased lags for real data, and the Levinson
+  recursion is invariant under that scaling: same coefficients and reflection coefficients as
+  `aryule`, error multiplied by `m/(m-1)`.  The DFT is the model's parameter (a primitive `nfft`-th
+  root of unity `ω` with `star ω = ω⁻¹`); helper lemmas in `Proofs/Lemmas/LpcLsf.lean` (namespace
+  `SpecVerif.LpcL`).
   Stability is now PROVED for every order (section 8, `yule_stable`): for a non-zero signal *all*
   roots of the order-`p` polynomial `z^p + a_1 z^{p-1} + … + a_p` lie strictly inside the unit
   circle.  It follows from `|k_i| < 1` for all `i` (`yule_stable_params`) by the Schur–Cohn theorem
@@ -364,5 +371,81 @@ example (x : List F) (hx : ∃ j, j < x.length ∧ nth x j ≠ 0)
   yule_stable x hx 1 z (by simpa using hz)
 
 end Stability
+
+/-! ### 9. `lpc`: the FFT-based autocorrelation gives the same coefficients (real data) -/
+
+section Lpc
+variable {K : Type} [Field K] [StarRing K]
+
+/-- **the autocorrelation sequence of `lpc`**: `R = real(ifft(|fft(x, nfft)|²))/(m-1)` with
+`nfft ≥ 2m-1` (`m = len x`, the code takes `nfft = 2**nextpow2(2m-1)`), `ω` a primitive `nfft`-th root
+of unity with `conj ω = ω⁻¹` (`fft` uses the table of `ω`, `ifft` the table of `ω⁻¹` and the factor
+`1/nfft`): every lag `d < m` is the real part of the raw autocorrelation `Σ_{n<m-d} x[n+d]·conj x[n]`
+divided by `m-1` — no circular wrap-around. -/
+theorem lpc_acf_eq {ω : K} {nfft : ℕ} (hω : IsPrimitiveRoot ω nfft) (hstar : star ω = ω⁻¹)
+    (hn0 : (nfft : K) ≠ 0) (x : List K) (hnfft : 2 * x.length - 1 ≤ nfft) (d : ℕ)
+    (hd : d < x.length) :
+    nth (lpcAcf (twiddles ω nfft) (twiddles ω⁻¹ nfft) x nfft) d
+      = rePart (∑ n ∈ range (x.length - d), nth x (n + d) * star (nth x n))
+          / ((x.length - 1 : ℕ) : K) :=
+  LpcL.lpcAcf_eq hω hstar hn0 x hnfft d hd
+
+/-- for real data (every sample self-adjoint) the sequence handed to LEVINSON by `lpc` is
+`m/(m-1)` times the biased autocorrelation used by `aryule`, at every lag `d ≤ maxlags`, `d < m` -/
+theorem lpc_acf_real {ω : K} {nfft : ℕ} (hω : IsPrimitiveRoot ω nfft) (hstar : star ω = ω⁻¹)
+    (h2 : (2 : K) ≠ 0) (hn0 : (nfft : K) ≠ 0) (x : List K)
+    (hreal : ∀ n, star (nth x n) = nth x n) (hm1 : ((x.length - 1 : ℕ) : K) ≠ 0)
+    (hm : (x.length : K) ≠ 0) (hnfft : 2 * x.length - 1 ≤ nfft) (maxlags d : ℕ)
+    (hd : d < x.length) (hdl : d ≤ maxlags) (rms2 : K) :
+    nth (lpcAcf (twiddles ω nfft) (twiddles ω⁻¹ nfft) x nfft) d
+      = (x.length : K) / ((x.length - 1 : ℕ) : K) * nth (correlation x x maxlags .biased rms2) d := by
+  rw [LpcL.lpcAcf_eq hω hstar hn0 x hnfft d hd,
+    rePart_of_star_eq h2 (LpcL.rawCorr_star_real _ _ hreal d),
+    C09.correlation_def_biased x x maxlags d hdl rms2, Nat.max_self]
+  unfold rawCorr
+  field_simp
+
+/-- **`lpc` and `aryule` agree on real data**: for a real signal of `m ≥ 2` samples
+(`(m-1 : K) ≠ 0`, `(m : K) ≠ 0`), order `p ≤ m-1` and `nfft ≥ 2m-1`, `lpc(x, p)` returns the AR
+coefficients and reflection coefficients of `aryule(x, p)` (biased Yule–Walker), and its prediction
+error is `m/(m-1)` times the Yule–Walker variance.  (`K` is any field with involution containing the
+root of unity, e.g. `ℂ` with real-valued data `ℝ ⊂ ℂ`.) -/
+theorem lpc_eq_yule {ω : K} {nfft : ℕ} (hω : IsPrimitiveRoot ω nfft) (hstar : star ω = ω⁻¹)
+    (h2 : (2 : K) ≠ 0) (hn0 : (nfft : K) ≠ 0) (x : List K)
+    (hreal : ∀ n, star (nth x n) = nth x n) (hm1 : ((x.length - 1 : ℕ) : K) ≠ 0)
+    (hm : (x.length : K) ≠ 0) (hnfft : 2 * x.length - 1 ≤ nfft) (p : ℕ) (hp : p ≤ x.length - 1) :
+    (lpc (twiddles ω nfft) (twiddles ω⁻¹ nfft) x nfft p).A = (aryule x p .biased).A
+    ∧ (lpc (twiddles ω nfft) (twiddles ω⁻¹ nfft) x nfft p).ref = (aryule x p .biased).ref
+    ∧ (lpc (twiddles ω nfft) (twiddles ω⁻¹ nfft) x nfft p).P
+        = (x.length : K) / ((x.length - 1 : ℕ) : K) * (aryule x p .biased).P := by
+  have hr : ∀ d, d ≤ p → nth (correlation x x p .biased (1 : K)) d
+      = rawCorr x.length (nth x) d / (x.length : K) := by
+    intro d hd
+    rw [C09.correlation_def_biased x x p d hd 1, Nat.max_self]
+    rfl
+  rw [LpcL.lpc_eq_scaleLev hω hstar h2 hn0 x hreal hm1 hm hnfft p hp _ hr,
+    (aryule_r0_real x p h2).2.2]
+  exact ⟨rfl, rfl, rfl⟩
+
+/-- non-vacuity of the hypotheses: `K = ℂ`, `nfft = 4`, `ω = -i` (a primitive 4th root of unity on
+the unit circle), the real signal `x = [1, 2]` (`m = 2`, `2m-1 = 3 ≤ 4`), order `p = 1` -/
+example : IsPrimitiveRoot (-Complex.I) 4 ∧ star (-Complex.I) = (-Complex.I)⁻¹
+    ∧ (2 : ℂ) ≠ 0 ∧ ((4 : ℕ) : ℂ) ≠ 0
+    ∧ (∀ n, star (nth ([1, 2] : List ℂ) n) = nth ([1, 2] : List ℂ) n)
+    ∧ (((([1, 2] : List ℂ).length - 1 : ℕ)) : ℂ) ≠ 0 ∧ ((([1, 2] : List ℂ).length : ℕ) : ℂ) ≠ 0
+    ∧ 2 * ([1, 2] : List ℂ).length - 1 ≤ 4 ∧ 1 ≤ ([1, 2] : List ℂ).length - 1 := by
+  refine ⟨?_, ?_, by norm_num, by norm_num, ?_, by norm_num, by norm_num, by norm_num, by norm_num⟩
+  · refine IsPrimitiveRoot.mk_of_lt _ (by norm_num) ?_ ?_
+    · rw [neg_pow, Complex.I_pow_four]; norm_num
+    · intro l hl0 hl4
+      interval_cases l
+      · norm_num [Complex.ext_iff]
+      · norm_num [neg_pow, Complex.ext_iff]
+      · rw [neg_pow, Complex.I_pow_three]; norm_num [Complex.ext_iff]
+  · rw [star_neg, Complex.star_def, Complex.conj_I, neg_neg, inv_neg, Complex.inv_I, neg_neg]
+  · intro n
+    rcases n with _ | _ | n <;> simp [nth]
+
+end Lpc
 
 end SpecVerif.C12
